@@ -381,11 +381,11 @@ var replayOutRe = regexp.MustCompile(`GOVC-REPLAY-OUT: (\{.*\})`)
 func replayOnRealCode(id string, o *Obligation, rep *FuncReport, inputs map[string]string, repo, verif string, cfg *PropConfig) (bool, interface{}) {
 	detail := map[string]interface{}{}
 	ri := rep.Replay
-	if ri == nil {
-		return false, "no replay information (lemma or unsupported function)"
-	}
 	if ok, d := runDriver(id, o, inputs, repo, verif, cfg); ok {
 		return true, d
+	}
+	if ri == nil {
+		return false, "no replay information (lemma or unsupported function) and no property-specific driver confirmed it"
 	}
 	if ri.HasRecv {
 		return false, "method receivers are replayed by property-specific drivers only"
